@@ -372,6 +372,11 @@ impl BDF {
                         current_c = c;
                     }
                     Err(_) => {
+                        if hmin > 0.0 && h_try <= hmin {
+                            // already at the lower step bound: it cannot be reduced any further
+                            status = Status::StepSizeTooSmall;
+                            break 'main_loop;
+                        }
                         let factor = 0.5;
                         change_d(&mut d, order, factor, &mut scratch_change);
                         current_h *= factor;
@@ -447,6 +452,11 @@ impl BDF {
                 iters += 1;
             }
             if !converged {
+                if hmin > 0.0 && h_try <= hmin {
+                    // already at the lower step bound: it cannot be reduced any further
+                    status = Status::StepSizeTooSmall;
+                    break;
+                }
                 // Always refresh Jacobian on Newton failure to handle discontinuities
                 f.jac(x_new, &y_predict, &mut jac);
                 evals.jac += 1;
@@ -480,6 +490,11 @@ impl BDF {
             };
 
             if error_norm > 1.0 {
+                if hmin > 0.0 && h_try <= hmin {
+                    // already at the lower step bound: it cannot be reduced any further
+                    status = Status::StepSizeTooSmall;
+                    break;
+                }
                 let mut factor = safety * error_norm.powf(-1.0 / (order as Float + 1.0));
                 factor = factor.max(MIN_FACTOR);
                 change_d(&mut d, order, factor, &mut scratch_change);
